@@ -289,7 +289,8 @@ def Trace.setSamplingPoints (t : Trace) (l : List Int) : Option Trace :=
   | some newTs =>
     let l' := dedup l
     let ts := dedup newTs
-    some { t with lookup := some l', timestamps := ts, index := 0, maxIndex := (ts.length : Int) - 1 }
+    some { t with lookup := some l', timestamps := ts, index := 0, maxIndex := (ts.length : Int) - 1,
+                  virt := t.virt.map (fun v => { v with cache := [] }) }
 
 def Trace.setMaxIndex (t : Trace) (m : Int) : Trace := { t with maxIndex := min m t.maxIndex }
 
